@@ -697,6 +697,15 @@ def gen_eam_model(rng, kind="eam", route="potable", nspecies=None, target=None, 
   if kind == "adp":
     model["dipole"] = pair_subset(0.6)
     model["quadrupole"] = pair_subset(0.6)
+  if rng.random() < 0.2:
+    # one function serving several species (through the API: one and the same callable object)
+    for key in ("embed", "density", "pair"):
+      ents = model.get(key) or []
+      if len(ents) >= 2 and rng.random() < 0.6 and not (key == "density" and unique_density):
+        for ent in ents[1:]:
+          if rng.random() < 0.6:
+            ent[-1] = copy.deepcopy(ents[0][-1])
+    model["share_callables"] = True
   return model
 
 
